@@ -329,6 +329,92 @@ def check_structured(inp):
     return None
 
 
+def check_crowded(inp):
+    """A CROWDED session: every cube and every clause over n variables is alive (tens of thousands of
+    nodes; the terminals and the literals have thousands of parents), built through BDDNode; then
+    operations whose results must collapse onto existing nodes: (u & v) | (~u & v) is v, u ^ u is 0,
+    (u | v) & (u | ~v) is u, for literals u, v from the top, the middle and the bottom of the ordering."""
+    OBDD, BDDNode = _lib()
+    n = inp['n']
+    vs = tuple('x%02d' % i for i in range(n))
+    order = list(vs)
+    T0, T1 = BDDNode(0), BDDNode(1)
+    keep = []
+    try:
+        # all cubes / clauses over the suffixes of the ordering, bottom-up (sharing makes this 2^(n+2) nodes)
+        level = {(): (T1, T0)}                     # assignment of the variables below -> (cube node, clause node)
+        for i in range(n - 1, -1, -1):
+            nxt_level = {}
+            for key, (cube, clause) in level.items():
+                for b in (0, 1):
+                    c = BDDNode(vs[i], T0, cube) if b else BDDNode(vs[i], cube, T0)
+                    d = BDDNode(vs[i], clause, T1) if b else BDDNode(vs[i], T1, clause)
+                    nxt_level[(b,) + key] = (c, d)
+            keep.append(level)
+            level = nxt_level
+            if len(level) > inp.get('cap', 1 << 14):
+                # enough alive: continue with a slice of the assignments only
+                level = dict(list(level.items())[:inp.get('cap', 1 << 14)])
+        keep.append(level)
+        lits = [OBDD(BDDNode(v, T0, T1), list(order)) for v in vs]
+        picks = [0, 1, n // 2, n - 2, n - 1]
+
+        def shape_problem(r, want):
+            """want: ('lit', i) | ('const', b).  The reduced ordered diagram of a literal is one node over the
+            two terminals; of a constant, a terminal (checked by shape: truth tables over 15 variables are slow)."""
+            root = r.root
+            if want[0] == 'const':
+                if not bdd.is_terminal(root) or bool(root.value) != bool(want[1]):
+                    return 'expected the constant %d, got a diagram testing %s' % (want[1], sorted(x.var for x in bdd.reachable_nodes(root) if not bdd.is_terminal(x)))
+                return None if not list(r.variables()) else 'variables() = %s for a constant' % sorted(r.variables())
+            v = vs[want[1]]
+            nodes_ = [x for x in bdd.reachable_nodes(root) if not bdd.is_terminal(x)]
+            if bdd.is_terminal(root) or root.var != v or not bdd.is_terminal(root.low) or not bdd.is_terminal(root.high) or \
+                    bool(root.low.value) or not bool(root.high.value):
+                return 'expected the one-node diagram of %s, got a diagram with %d inner nodes testing %s' % (
+                    v, len(nodes_), sorted(set(x.var for x in nodes_)))
+            if set(r.variables()) != set([v]):
+                return 'variables() = %s, expected [%r]' % (sorted(r.variables()), v)
+            return None
+
+        for a in picks:
+            for b in picks:
+                if a == b:
+                    continue
+                u, v = lits[a], lits[b]
+                for what, r, want in (('(u & v) | (~u & v)', (u & v) | (~u & v), ('lit', b)),
+                                      ('(u | v) & (u | ~v)', (u | v) & (u | ~v), ('lit', a)),
+                                      ('u ^ u', u ^ u, ('const', 0)),
+                                      ('(u & v) | (u & ~v) | (~u)', (u & v) | (u & ~v) | (~u), ('const', 1))):
+                    p = shape_problem(r, want)
+                    if p:
+                        return Failure('crowded', inp, 'correct reduced ordered diagram',
+                                       '%s with u=%s, v=%s in a session with all cubes and clauses of %d variables alive: %s' % (what, vs[a], vs[b], n, p))
+    except core.HarnessError:
+        raise
+    except MemoryError:
+        raise core.HarnessError('not enough memory for the crowded session')
+    except Exception as e:
+        return Failure('crowded', inp, 'no exception', 'raised %s: %s' % (type(e).__name__, str(e)[:200]))
+    finally:
+        keep = None
+    return None
+
+
+def crowded_shard(st, shard, nshards, payload):
+    for i, n in enumerate(payload['ns']):
+        if i % nshards != shard:
+            continue
+        inp = {'n': n, 'cap': 1 << 15}
+        st.evaluations += 80
+        st.nontrivial += 80
+        st.bump('crowded session over %d variables' % n)
+        st.sample(inp, cls='crowded')
+        f = check_crowded(inp)
+        if f is not None and st.failure is None:
+            st.failure = f
+
+
 STRUCT_FAMILIES = ['parity', 'comparator', 'threshold', 'alternating', 'skip']
 
 
@@ -353,7 +439,8 @@ def structured_shard(st, shard, nshards, payload):
                     return
 
 
-CHECKS = {'ops': check_ops, 'errors': check_errors, 'two_orderings': check_two_orderings, 'structured': check_structured}
+CHECKS = {'ops': check_ops, 'errors': check_errors, 'two_orderings': check_two_orderings, 'structured': check_structured,
+          'crowded': check_crowded}
 
 
 def replay(ctx, rec):
@@ -468,6 +555,14 @@ def run(ctx):
     ctx.scopes.append('structured functions (parity, comparator, threshold, alternating chain, skipped middle) over %s variables under a natural, '
                       'a reversed and a split ordering, with chained restrictions' % sp['ns'])
     f = core.run_sharded(ctx, structured_shard, sp)
+    if f is not None:
+        ctx.violation(f)
+        return
+    cn = ctx.pick([14, 15], [13, 14, 15, 16])
+    ctx.scopes.append('crowded sessions: every cube and clause over %s variables alive (up to ~10^5 nodes, terminals and literals with tens of '
+                      'thousands of parents), then operations whose results must collapse onto existing nodes' % cn)
+    # one fresh process per session (a crowded session must not be the parent of later worker processes)
+    f = core.run_sharded(ctx, crowded_shard, {'ns': cn}, nshards=len(cn))
     if f is not None:
         ctx.violation(f)
         return
